@@ -2,13 +2,13 @@
 
 Public API
 ----------
-``unparse(node, parens='minimal', style=0, salt=0) -> str``
+``unparse(node, parens='minimal', style=0, salt=0, ends=True) -> str``
     Text of a statement (Select, Balances, Journal, Print), of an expression node, or of a clause
     node (Target, From, Table, GroupBy, OrderBy, PivotBy).  Raises ``NotExpressible`` (a
     ``ValueError``) when no BQL text denotes the AST (see "Expressible ASTs" below).
 ``tokens(node, parens='minimal') -> list[Tok]``
     The token sequence (``Tok(text, kind)``) before spelling; ``render(toks, style, salt)`` spells it.
-``render(toks, style=0, salt=0) -> str``
+``render(toks, style=0, salt=0, ends=True) -> str``   (``ends=False``: embeddable, nothing before the first / after the last token)
 ``expressible(node) -> bool``
 ``level(node) -> int``           precedence level of an expression node (the ladder below)
 ``count_grouping(node) -> int``  parenthesis pairs the ladder demands in the minimal print
@@ -637,15 +637,17 @@ def _plain_blank(a, b, ka, kb):
     return True
 
 
-def render(toks, style=0, salt=0):
-    """Spell a token sequence.  See the module docstring for the four styles."""
+def render(toks, style=0, salt=0, ends=True):
+    """Spell a token sequence.  See the module docstring for the four styles.  ``ends=False`` leaves out
+    what styles 1 and 2 put before the first and after the last token (final ``;``, leading / trailing
+    comments) so that the text can be embedded in a larger statement."""
     if style not in STYLES:
         raise ValueError(f'style must be one of {STYLES}')
     toks = [t for t in toks if t.kind != 'asc' or style in (1, 2)]
     words = [_spell(t, style, i + salt) for i, t in enumerate(toks)]
     kinds = [t.kind for t in toks]
     out = []
-    if style == 2:
+    if style == 2 and ends:
         out.append(_COMMENTS[salt % len(_COMMENTS)])
     for i, w in enumerate(words):
         if i:
@@ -659,16 +661,18 @@ def render(toks, style=0, salt=0):
             else:
                 out.append(' ' if _needs_blank(a, w, ka, kb) else '')
         out.append(w)
-    if style == 1:
+    if not ends:
+        pass
+    elif style == 1:
         out.append(_SPREAD[salt % len(_SPREAD)] + ';')
     elif style == 2:
         out.append(_COMMENTS[(salt + 5) % len(_COMMENTS)].rstrip('\n') if salt % 2 else _COMMENTS[(salt + 3) % len(_COMMENTS)])
     return ''.join(out)
 
 
-def unparse(node, parens='minimal', style=0, salt=0):
+def unparse(node, parens='minimal', style=0, salt=0, ends=True):
     """BQL text of ``node``; ``parse(unparse(ast)) == ast`` is property C06."""
-    return render(tokens(node, parens), style, salt)
+    return render(tokens(node, parens), style, salt, ends)
 
 
 # ---------------------------------------------------------------------------------------------------------
